@@ -168,6 +168,17 @@ impl<'s> Cx<'s> {
         if let (Some(vis), false) = (vis, in_trait_impl) {
             self.vis_edit(vis, br(sig.span()).0);
         }
+        // R15: `name: fn(a: A) -> R` parameter types -> `name: impl Fn(A) -> R` (Verus: no function pointer types)
+        for inp in sig.inputs.iter() {
+            if let syn::FnArg::Typed(pt) = inp {
+                if let syn::Type::BareFn(bf) = &*pt.ty {
+                    let (a, b) = br(bf.span());
+                    let args: Vec<String> = bf.inputs.iter().map(|x| { let (s, e) = br(x.ty.span()); self.text(s, e).to_string() }).collect();
+                    let ret = match &bf.output { syn::ReturnType::Default => String::new(), syn::ReturnType::Type(_, t) => { let (s, e) = br(t.span()); format!(" -> {}", self.text(s, e)) } };
+                    self.edit(a, b, format!("impl Fn({}){}", args.join(", "), ret), "R15");
+                }
+            }
+        }
         if let Some(b) = block {
             let (bs, be) = br(b.span());
             v["body_start"] = json!(bs);
@@ -178,6 +189,7 @@ impl<'s> Cx<'s> {
                 r6n: 0,
                 r2n: 0,
                 r12n: 0,
+                r14n: 0,
                 n_index: 0,
                 n_arith: 0,
                 n_unwrap: 0,
@@ -370,11 +382,32 @@ struct FnVisitor<'c, 's> {
     r6n: usize,
     r2n: usize,
     r12n: usize,
+    r14n: usize,
     n_index: usize,
     n_arith: usize,
     n_unwrap: usize,
     n_panic: usize,
     n_calls: usize,
+}
+
+/// finds `break EXPR` belonging to the current loop (not nested loops / closures)
+struct BreakFinder { found: Vec<(usize, usize, usize, usize)>, depth: usize }
+impl<'ast> Visit<'ast> for BreakFinder {
+    fn visit_expr_break(&mut self, b: &'ast syn::ExprBreak) {
+        if self.depth == 0 && b.label.is_none() {
+            if let Some(e) = &b.expr {
+                let (bs, be) = br(b.span());
+                let (es, ee) = br(e.span());
+                self.found.push((bs, be, es, ee));
+            }
+        }
+        visit::visit_expr_break(self, b);
+    }
+    fn visit_expr_loop(&mut self, l: &'ast syn::ExprLoop) { self.depth += 1; visit::visit_expr_loop(self, l); self.depth -= 1; }
+    fn visit_expr_while(&mut self, l: &'ast syn::ExprWhile) { self.depth += 1; visit::visit_expr_while(self, l); self.depth -= 1; }
+    fn visit_expr_for_loop(&mut self, l: &'ast syn::ExprForLoop) { self.depth += 1; visit::visit_expr_for_loop(self, l); self.depth -= 1; }
+    fn visit_expr_closure(&mut self, _c: &'ast syn::ExprClosure) {}
+    fn visit_item(&mut self, _i: &'ast syn::Item) {}
 }
 
 /// Collect `&ident` reference sub-patterns: (start, end, ident, is_mut).
@@ -524,6 +557,21 @@ impl<'c, 's, 'ast> Visit<'ast> for FnVisitor<'c, 's> {
 
     fn visit_expr_loop(&mut self, l: &'ast syn::ExprLoop) {
         let attrs_end = l.attrs.iter().map(|a| br(a.span()).1).max().unwrap_or(0);
+        // R14: `loop { .. break EXPR; .. }` used as a value -> `{ let vx_brkN; loop { .. { vx_brkN = EXPR; break; } .. } vx_brkN }`
+        let mut bf = BreakFinder { found: Vec::new(), depth: 0 };
+        bf.visit_block(&l.body);
+        if !bf.found.is_empty() && l.label.is_none() {
+            let n = self.r14n;
+            self.r14n += 1;
+            let (ls, le) = br(l.span());
+            let ls = ls.max(attrs_end);
+            self.cx.edit(ls, ls, format!("{{ let vx_brk{}; ", n), "R14");
+            for (bs, be, es, ee) in bf.found {
+                self.cx.edit(bs, es, format!("{{ vx_brk{} = ", n), "R14");
+                self.cx.edit(ee, be, "; break }", "R14");
+            }
+            self.cx.edit(le, le, format!(" vx_brk{} }}", n), "R14");
+        }
         self.loop_rec("loop", l.span(), attrs_end, &l.body, l.label.is_some());
         visit::visit_expr_loop(self, l);
     }
@@ -735,6 +783,17 @@ impl<'c, 's, 'ast> Visit<'ast> for FnVisitor<'c, 's> {
             self.n_panic += 1;
         }
         visit::visit_macro(self, m);
+    }
+
+    fn visit_expr_closure(&mut self, c: &'ast syn::ExprClosure) {
+        // R16: `_` closure parameters -> named (Verus: "only variables are supported here")
+        for (k, inp) in c.inputs.iter().enumerate() {
+            if let syn::Pat::Wild(w) = inp {
+                let (a, b) = br(w.span());
+                self.cx.edit(a, b, format!("_vx_unused{}", k), "R16");
+            }
+        }
+        visit::visit_expr_closure(self, c);
     }
 
     // do not descend into nested items
